@@ -15,7 +15,9 @@ claim("C03", "model_checking",
       "TLC checks FreshOnly/AtMostOnce/FailuresLeaveNothing/PruneSound exhaustively on specs/Replay/TcpReplay.tla with the constants read "
       "from the compiled code (tick grid of 3 instants per second around the 30/60/61 s boundaries, up to 2 concurrent presenters); the "
       "state graph (path cover) and simulated deeper walks are replayed on the real StreamServer.HandleStream inside testing/synctest "
-      "with verifhook gates executing the interleavings, and the property is evaluated on what the real server answered.",
+      "with verifhook gates executing the interleavings, and the property is evaluated on what the real server answered. Test purposes "
+      "(TPTcpReplay.tla: pool list order != expiry order at a pruning Add; boundary and race purposes) make TLC produce witness behaviours "
+      "of corners the covers do not reach (4 requests, 2 presenters), which are replayed too.",
       "AEAD/key derivation trusted; bounded constants (<=2-3 requests, <=3-5 clock advances from a boundary alphabet); presenters "
       "interleave only at the TryContains/validate/Add boundaries.",
       "TLA+ spec + TLC exhaustive model checking; gated state-graph replay into the real server under a virtual clock",
@@ -56,9 +58,11 @@ claim("C11", "model_checking",
       "resolution cache as separate check/resolve/store/load steps (thorough: a shared packer must violate RightDestination). The interleavings "
       "are replayed on real NAT relays on loopback built from a JSON service.Config (generic and recvmmsg/sendmmsg paths), with the verifhook "
       "points in the relay and in the packer as scheduler gates and a scripted DNS server behind net.DefaultResolver: which target socket got "
-      "which payload, which client got which reply from which source, and that garbage creates no session, are compared.",
-      "SOCKS5 server + direct client relays; other protocol pairs share the relay code and differ in the packers (C05); kernel UDP on loopback; "
-      "batched uplink of the sendmmsg path replayed only where at most one packet is queued per session.",
+      "which payload, which client got which reply from which source, and that garbage creates no session, are compared. The batched uplink of the "
+      "sendmmsg path is modelled as coded (UpBatch/UpPack: every queued packet packed, one sendmmsg) and replayed with two destinations; garbage "
+      "is sent at every state of a session incl. as the first datagram of an address.",
+      "SOCKS5 and Shadowsocks 2022 servers + direct client relays; other protocol pairs share the relay code and differ in the packers (C05); "
+      "kernel UDP on loopback; lookups failing inside a batch are model-checked but not replayed.",
       "TLA+ spec + TLC exhaustive model checking; gated replay of TLC interleavings on real UDP relays over loopback sockets",
       "DESIGN.md 4/C11", "udprelay")
 claim("C12", "model_checking",
@@ -67,7 +71,9 @@ claim("C12", "model_checking",
       "state graph, with the steps the real system takes by itself treated as urgent, is replayed on real NAT relays on loopback with the "
       "verifhook points as scheduler gates: Stop latency against the NAT timeout, goroutine and socket accounting after Stop, eviction after "
       "the NAT timeout and a fresh session afterwards are observed on the real process. System level: specs/System/Manager.tla "
-      "(Manager.Run: start order, failing listener anywhere, stop order) is run on the real service manager with live UDP sessions.",
+      "(Manager.Run: start order, failing listener anywhere, stop order) is run on the real service manager with live UDP sessions; the "
+      "client session object and a socket fault after it exists (InitFailSock) are replayed on relays with a SOCKS5 client (descriptor limit "
+      "as the fault), the batched uplink with Stop at any point of a batch on the sendmmsg relays.",
       "NAT relays (socks5 server, direct client), generic and sendmmsg; the session relays share the skeleton; 'prompt' = min(natTimeout/3, 8 s); "
       "real-time eviction replays tolerate (skip) spontaneous timeouts on a slow machine.",
       "TLA+ spec + TLC safety and liveness checking; gated replay of lifecycle interleavings on real UDP relays with leak accounting",
@@ -77,8 +83,8 @@ claim("C13", "model_checking",
       "specs/Relay/TcpRelay.tla for every wait decision (server native x client native x listener flag). Every path of the state graphs becomes "
       "one real connection through a TCP relay built from a JSON service.Config (server protocol x client protocol, proxy client protocols chained "
       "through a second relay), harness client through the repository's own client code, harness target on loopback: stream positions, "
-      "end-of-stream order, replies and the statistics API are compared.",
-      "Kernel TCP on loopback; byte unit mapped to 1/700/1440/1441/70000 bytes; dial failures: refused, unreachable, lookup failure, router rejection.",
+      "end-of-stream order, replies and the statistics API are compared. The target may reset the connection at any time.",
+      "After a reset the client sends nothing more (environment assumption of the spec). Kernel TCP on loopback; byte unit mapped to 1/700/1440/1441/70000 bytes; dial failures: refused, unreachable, lookup failure, router rejection.",
       "TLA+ spec + TLC model checking; state-graph paths replayed as real connections through a relay built from service.Config",
       "DESIGN.md 4/C13", "tcprelay")
 
@@ -101,7 +107,8 @@ claim("C05", "exploration",
       "constants read from the compiled code; TLC checks InBuffer/WithinMtu/TooBigIsRefused/RelaySafe/RoundTrip/PaddingBounded over the case "
       "lattice and prints the cases. Every case is replayed on the real packers/unpackers in canary-filled buffers sized by the relays that "
       "service.Config.Manager really builds (read by reflection), incl. identity-header chains; a sample goes through real relay services on "
-      "loopback (v4/v6, with and without mmsg batching).",
+      "loopback (v4/v6, with and without mmsg batching). specs/Packet/UdpSession.tla models the client address history of one session on a "
+      "dual-stack listener and the downlink's cached size limit; every history is played on a real Shadowsocks 2022 session relay.",
       "Padding amounts are the code's own random choice (bounds and shifts are checked, not exact values); cipher fidelity is observed on the "
       "replayed samples, not modelled; live relays sample 1 configuration per protocol pair in quick.",
       "TLA+ layout spec + TLC case enumeration; model-derived cases on the real codecs with canaries and through real relays",
@@ -136,7 +143,8 @@ claim("C15", "model_checking",
       "ClosedForever/ReverseUnaffected/DeadlineUnblocks/BlockedLegitimately and, under weak fairness, EventuallyReturns. Sequential-start "
       "schedules are replayed with one goroutine per call and parked-goroutine detection; free-running histories from 2-4 goroutines per end and "
       "the replays are judged by direct oracles and by TLC trace validation against TracePipe.tla (unlogged steps inferred, high-water-mark "
-      "postcondition); race probes hit the store-then-close and timer-vs-set windows.",
+      "postcondition); race probes hit the store-then-close and timer-vs-set windows. The combined SetDeadline and Close are actions of their "
+      "own, replayed in every half-close state of both ends.",
       "Exhaustive claims cover at most 4 calls from small alphabets; the replay driver forces sequential-start schedules only (racing starts come "
       "from free-running histories and probes); WriteTo sinks are assumed not to block; a deadline that fires too early is not detected.",
       "TLA+ spec + TLC safety/liveness checking; schedule replay with parked-goroutine detection and TLC trace validation of recorded histories",
@@ -194,7 +202,8 @@ claim("C01", "model_checking",
       "RequestFaithful/EofLast/FramesOK and EventuallyDrained under fairness with toy constants exhaustively and with the real constants "
       "(measured from the compiled code) on graphs. The graphs are replayed edge by edge on the real StreamClient.DialStream / "
       "StreamServer.HandleStream / conns over a scripted fragmenting transport with position-coded payloads; every byte read, the end-of-stream "
-      "point and the request's target, user and payload split are compared.",
+      "point and the request's target, user and payload split are compared. Idle(d): silence of 45 s / 10 min while nothing is on the wire, "
+      "replayed under a virtual clock.",
       "AEAD and key derivation are trusted (observed on the replayed bytes); a read that would block is modelled as not enabled; quick replays a "
       "seeded 900-path cover per primary graph; identity-header chains deeper than 1 end in relays built in the harness.",
       "TLA+ spec + TLC model checking; state-graph replay over a scripted fragmenting transport against the real tunnel endpoints",
@@ -217,7 +226,8 @@ claim("C16", "model_checking",
       "with the filter defined as the property words it; TLC checks QueueBound/NoDrop/InOrder/InterimNotFinal/NothingBeforeAuth/Filtered/"
       "WrongHostNeverSent/CloseEnds/Terminates. Path covers and simulated walks are replayed against the real ServerHandle(...).Proceed() inside "
       "testing/synctest with a scripted client and origin on netio pipes; messages are rendered with randomised casing, field order and chunking, "
-      "and what each peer received is parsed back and compared field by field.",
+      "and what each peer received is parsed back and compared field by field. Follow-up hosts and redirect locations come from a table of 18 "
+      "spellings (other port, other case, default port, other domain, IP literals).",
       "Schedules are exact at quiescent points only; every message arrives complete; HTTP/1.0, malformed field syntax and obs-fold are not "
       "generated (framing is net/http's); response-direction field leaks are notes (the property words the filter for requests).",
       "TLA+ spec + TLC model checking; replay of TLC behaviours against the real HTTP proxy forwarder under a virtual clock",
